@@ -288,3 +288,29 @@ Definition step (s : st) (o : op) : st :=
   end.
 
 Definition run (c : config) (ops : list op) : st := fold_left step ops (init c).
+
+(* ---------- crash and recovery (C02, C03) ---------- *)
+(* A process stop loses the memtables. Log files that were already closed are complete
+   (rotation closes the old file before anything of the new one is written, and closes it
+   before the SSTables of the flush are written). Of the newest log file an arbitrary prefix of
+   the WRITES survives: a write is the set of entries with one sequence number (AppendBatch
+   hands a whole batch to the operating system in one piece), so the survivors are the entries
+   with sequence number below some bound q. Published SSTables survive. *)
+Definition cut_seq (q : N) (f : list wentry) : list wentry := filter (fun e => w_seq e <? q) f.
+
+Definition map_last {A} (g : A -> A) (l : list A) : list A :=
+  match rev l with
+  | [] => []
+  | x :: r => rev r ++ [g x]
+  end.
+
+Definition on_disk (s : st) (files : list (list wentry)) : st :=
+  mkSt (cfg s) (wal_next s) files (last_seq s) mt_empty [] [] false (ssts s) (next_file s)
+       (clock s) (lost_log s).
+
+Definition crash (s : st) (q : N) : st := on_disk s (map_last (cut_seq q) (wal_files s)).
+
+(* torn final write: the newest file keeps its first n entries — n may fall inside a batch *)
+Definition crash_torn (s : st) (n : nat) : st := on_disk s (map_last (firstn n) (wal_files s)).
+
+Definition recover (s : st) : st := reopen s.
